@@ -100,6 +100,9 @@ class RequestPath(object):
                 return 'fresh', 'own field of the object under construction'
             return 'shared', 'self of %s' % (ci.name if ci else '?')
         params = set(fi.params())
+        al = self.shared_aliases(fi)
+        if root in al:
+            return 'shared', 'local %s is an alias of %s (no copy)' % (root, al[root])
         if root in REQUEST_LOCAL_NAMES:
             return 'request-local', 'role of %s' % root
         if root in params:
@@ -109,6 +112,83 @@ class RequestPath(object):
             return 'shared', 'module-level object %s' % root
         # local of unknown provenance (e.g. alias of a parameter)
         return 'shared', 'local %s of unknown provenance' % root
+
+    def shared_aliases(self, fi):
+        """{local: text} -- locals whose every assignment is a plain attribute/subscript chain (no call, no copy)
+        rooted at ``self`` of a long-lived class, at a parameter without a per-request role, or at another such
+        alias.  Mutating such a local mutates the shared object."""
+        c = getattr(fi, '_shared_aliases', None)
+        if c is not None:
+            return c
+        from ..astutil import assigned_value
+        ci = self.cg.enclosing_class(fi)
+        self_shared = ci is not None and not self.is_per_request_class(ci)
+        params = set(fi.params())
+        out = {}
+        changed = True
+        names = set()
+        for n in ast.walk(fi.node):
+            if isinstance(n, ast.Name) and isinstance(n.ctx, ast.Store):
+                names.add(n.id)
+        while changed:
+            changed = False
+            for name in sorted(names - set(out) - params):
+                vals = assigned_value(fi.node, name)
+                if not vals:
+                    continue
+                ok = True
+                src = None
+                for st, v, idx in vals:
+                    if idx is not None or not isinstance(v, (ast.Attribute, ast.Subscript, ast.Name)):
+                        ok = False
+                        break
+                    base = v
+                    while isinstance(base, (ast.Attribute, ast.Subscript)):
+                        base = base.value
+                    if not isinstance(base, ast.Name):
+                        ok = False
+                        break
+                    b = base.id
+                    if b in ('self', 'cls') and self_shared and not isinstance(v, ast.Name):
+                        src = norm(v)
+                    elif b in out:
+                        src = norm(v)
+                    elif b in params and b not in REQUEST_LOCAL_NAMES and b not in ('self', 'cls') and not isinstance(v, ast.Name):
+                        src = norm(v)
+                    else:
+                        ok = False
+                        break
+                if ok and src:
+                    out[name] = src
+                    changed = True
+        fi._shared_aliases = out
+        return out
+
+    def field_freshness(self):
+        """For classes instantiated per request: a field that is mutated in place somewhere must only ever be
+        *assigned* freshly allocated objects -- otherwise the per-request object would alias (and then mutate)
+        something long-lived handed to it.  -> [(ClassInfo, field, assign stmt, ok, why)]"""
+        out = []
+        from ..astutil import stmts_of
+        for ci in self.per_request + [c for c in self.cg.classes if any(pr in self.repo.mro(c) for pr in self.per_request) and c not in self.per_request]:
+            mutated = {}
+            for m in ci.methods.values():
+                for e in effects.effects_in(m.node):
+                    ch = e.chain or []
+                    if len(ch) >= 2 and ch[0] == 'self' and (e.kind == 'mutcall' or len(ch) > 2):
+                        mutated.setdefault(ch[1], []).append(e)
+            for m in ci.methods.values():
+                for s in stmts_of(m.node):
+                    if isinstance(s, ast.Assign):
+                        for t in s.targets:
+                            if isinstance(t, ast.Attribute) and isinstance(t.value, ast.Name) and t.value.id == 'self' and t.attr in mutated:
+                                v = s.value
+                                fresh = isinstance(v, (ast.List, ast.Dict, ast.Set, ast.Tuple, ast.ListComp, ast.DictComp, ast.SetComp,
+                                                       ast.Constant, ast.BinOp, ast.JoinedStr)) or \
+                                    (isinstance(v, ast.Call) and isinstance(v.func, ast.Name) and
+                                     (v.func.id in effects.FRESH_CALLS or self.repo.resolve(ci.mod, v.func.id)[0] == 'class'))
+                                out.append((ci, m, t.attr, s, fresh))
+        return out
 
     def effects(self):
         """[(FuncInfo, Effect, class, reason, path)] for every reachable function of the core modules."""
